@@ -15,7 +15,7 @@ func init() { register("C03", checkC03) }
 // rewriting call the independent reader must find the model's entry list:
 // same ids, same order, same bodies (one appended at the end, or one replaced).
 func checkC03(c *vkit.Ctx) {
-	c.P.Rule = "case = generated history (confusable names incl. prefixes and nested subtests, 0-14 calls per test, 1-3 executions per test, calls that fail midway through invalid documents / failing matchers / mismatches without update, sequential or call-interleaved, bodies containing other slots' header lines) run as 3 simulated processes: record, then two runs in which a random subset of calls changes value with Update(false|true|unset) under a random mode; in every 5th history one call in five runs while writes fail (RLIMIT_FSIZE 0 or 1-300 bytes: EFBIG after a successful open): a call whose write failed must report a failure (the model then adopts what it left on disk), any other answer and every later call are judged as always; every 6th history changes one letter inside a stored entry in place between two calls (same inode, size and mtime); every 7th calls a report-only Clean between two calls of running tests (nothing may change, the slots of later calls stay); a quarter of the sessions have a snapshot directory that does not exist yet (a new directory is a write); some tests make Match* calls from a t.Cleanup callback registered part-way; byte inputs carry spare capacity that is checked after the call; lockstep slot model on outcomes + independent reader on the file after every mutating call; non-trivial = >=2 tests share a file and the history has a prefix-related name pair, >=10 ordinals, a failing call followed by another call, a repeated execution or an addressed-header body line; distinct by hash of history"
+	c.P.Rule = "case = generated history (confusable names incl. prefixes and nested subtests, 0-14 calls per test, 1-3 executions per test, calls that fail midway through invalid documents / failing matchers / mismatches without update, sequential or call-interleaved, bodies containing other slots' header lines) run as 3 simulated processes: record, then two runs in which a random subset of calls changes value with Update(false|true|unset) under a random mode; in every 5th history one call in five runs while writes fail (RLIMIT_FSIZE 0 or 1-300 bytes: EFBIG after a successful open): a call whose write failed must report a failure (the model then adopts what it left on disk), any other answer and every later call are judged as always; every 6th history changes one letter inside a stored entry in place between two calls (same inode, size and mtime); every 9th removes the snapshot directory with everything in it between two calls or blocks it with a regular file during one call (the call fails, later calls through the same Config work again); every 7th calls a report-only Clean between two calls of running tests (nothing may change, the slots of later calls stay); a quarter of the sessions have a snapshot directory that does not exist yet (a new directory is a write); some tests make Match* calls from a t.Cleanup callback registered part-way; byte inputs carry spare capacity that is checked after the call; lockstep slot model on outcomes + independent reader on the file after every mutating call; non-trivial = >=2 tests share a file and the history has a prefix-related name pair, >=10 ordinals, a failing call followed by another call, a repeated execution or an addressed-header body line; distinct by hash of history"
 	c.P.Assumptions = []string{"VerifResetProcessState simulates a new process", "the same test name is never live twice at once (the real runner runs -count executions one after the other)"}
 	n := c.N(10000, 300000)
 	for i := 0; i < n; i++ {
@@ -64,6 +64,26 @@ func runC03(c *vkit.Ctx, i int, h *History) {
 			}
 		}
 		h.Classes["entries-edited-in-place-between-calls"] = true
+	}
+	if i%9 == 8 {
+		// the directory tree changes while the process runs: the snapshot directory is removed
+		// with everything in it between two calls (the next storing call creates it again), and
+		// now and then a regular file sits in its place during one call (that call fails; the
+		// obstacle is gone afterwards and later calls through the same Config work)
+		if s.Sub == "" {
+			s.Sub = SubDirs[(i/9)%len(SubDirs)]
+		}
+		tr := c.Rand("tree", i)
+		prev := s.BeforeStep
+		s.BeforeStep = func(o Op) {
+			if prev != nil {
+				prev(o)
+			}
+			if tr.IntN(6) == 0 && s.RemoveSnapshotDir() {
+				c.Count("snapshot_directories_removed_between_calls", 1)
+			}
+		}
+		h.Classes["snapshot-directory-removed-or-blocked-between-calls"] = true
 	}
 	if i%7 == 5 {
 		// Clean is not the end of the process: it is called (report-only) between two calls of
@@ -126,6 +146,12 @@ func runC03(c *vkit.Ctx, i int, h *History) {
 		faults := i%5 == 2
 		fault := func(tp *TestPlan, idx int, op *Op) {
 			fr := mutRand(c.P.Seed+int64(i), 100+run, tp.Name, idx)
+			if i%9 == 8 && fr.IntN(4) == 0 {
+				op.Blocked = true // takes effect only while the directory does not exist
+			}
+			if !faults {
+				return
+			}
 			if fr.IntN(5) != 0 {
 				return
 			}
@@ -136,11 +162,13 @@ func runC03(c *vkit.Ctx, i int, h *History) {
 		}
 		if faults {
 			h.Classes["write-faults"] = true
+		}
+		if faults || i%9 == 8 {
 			mutate = fault
 		}
 		if run > 1 {
 			mutate = func(tp *TestPlan, idx int, op *Op) {
-				if faults {
+				if faults || i%9 == 8 {
 					fault(tp, idx, op)
 				}
 				mr := mutRand(c.P.Seed+int64(i), run, tp.Name, idx)
@@ -168,6 +196,9 @@ func runC03(c *vkit.Ctx, i int, h *History) {
 			}
 			if o.Fault {
 				c.Count("calls_made_while_writes_fail", 1)
+			}
+			if res.Faulted == "directory-blocked" {
+				c.Count("calls_made_while_the_directory_is_blocked", 1)
 			}
 			if res.Faulted != "" {
 				c.Count("failed_writes_reported:"+o.API+":"+res.Faulted, 1)
